@@ -99,14 +99,14 @@ CHECKS = {
    ref="DESIGN.md 4/C17"),
 
  "C07": dict(
-   added=" Velocity magnitudes 4, 4*2^12 (cell Peclet ~1e4) and 4*2^-40 as a fifth lattice dimension; thin 2-D/3-D shapes; the periodic axis rotates over the candidates.",
+   added=" Velocities are built by FaceVariable arithmetic (2u - u + 0) and must equal u. Velocity magnitudes 4, 4*2^12 (cell Peclet ~1e4) and 4*2^-40 as a fifth lattice dimension; thin 2-D/3-D shapes; the periodic axis rotates over the candidates.",
    engine="B-cfgsolve",
    technique="configuration lattice with deviation bound over (BC set-up, D pattern, sink, dt, +-every element of a basis of the admissible discretely solenoidal velocities); per configuration the complete solution operator is obtained from the library-assembled system and checked for sign and row sums",
    text="Because the update is linear, the maximum principle for every initial field and every Dirichlet datum is equivalent to entrywise non-negativity and row sums <= 1 of the solution operator; that operator is computed for every configuration within the deviation bound (4 BC set-ups incl. periodic and walls, 5 diffusivity patterns incl. a zero face and 10^6 contrast, sink on/off, dt over 8 decades, zero velocity and +-each unit stream function / through-flow admissible for the set-up) from the system captured during a real solvePDE call whose own answer is cross-checked; a real two-step run from a unit field confirms the bound dynamically. Exhaustive within the deviation bound.",
    note="cond*eps > 1e-4 configurations are counted as preconditions_failed; the dense inverse of the captured matrix supplies all columns at once (SuperLU's answer for a generic field is compared with it in each configuration); velocity magnitudes are O(1).",
    ref="DESIGN.md 4/C07"),
  "C08": dict(
-   added=" Periodic axes declared on both faces / the low face / the high face in permutations and shifts (the transformed problem another way); boundary values along a periodic axis are the wrapped interior.",
+   added=" D and u are passed through the library's FaceVariable arithmetic (exact for the dyadic values). Periodic axes declared on both faces / the low face / the high face in permutations and shifts (the transformed problem another way); boundary values along a periodic axis are the wrapped interior.",
    engine="B-cfgsolve",
    technique="metamorphic enumeration: every transformation (6 embedding pairs x position x N_red x spacing x closure x u_red; all axis permutations; every mirror; every cyclic shift) x 4 BC kind vectors x 7 term subsets (3 limiters), both problems solved by the real library for 2 steps",
    text="Each transformation of the property is instantiated on every reduced configuration and original and transformed problems are solved with the real library; the solution on the higher-dimensional grid must be constant along the redundant axis and equal to the reduced solution including ghost layers, permuted/mirrored/shifted problems must give permuted/mirrored/shifted solutions, to 64*eps*cond. Exhaustive over the transformation and configuration alphabets.",
@@ -131,8 +131,8 @@ GRIDS = (" Grid instances of the shared enumeration (fvmc/universe.py grid_specs
 ADDED = {
  "C01": GRIDS,
  "C05": GRIDS + " Upwind identities also for velocities and explicit upwind-direction fields of magnitude 2^-40, 2^-70, 2^50.",
- "C06": GRIDS + " One long-lived velocity object is re-assembled after in-place edits (sign flip, 2^-40 / 2^45 scaling, zero).",
- "C11": GRIDS + " Means on values of magnitude 2^-40 / 2^60 and constants 1e-9..2.5e14; upwindMean for velocities down to the smallest subnormal.",
+ "C06": GRIDS + " Constants are advected as c*div(u) also with a separate upwind-direction field. One long-lived velocity object is re-assembled after in-place edits (sign flip, 2^-40 / 2^45 scaling, zero).",
+ "C11": GRIDS + " Zeros of either sign in adjacent cells. Means on values of magnitude 2^-40 / 2^60 and constants 1e-9..2.5e14; upwindMean for velocities down to the smallest subnormal.",
  "C04": GRIDS.replace("Grid instances", "Ghost-row part: grid instances") + " All sequences of three solves on ONE variable (built-in solver) over 7 systems that differ by a few ppm, "
         "by a factor, in the sources only, in sparsity, or are expressed in units with coefficients ~1e-9; the caller's term list must be left alone; +SignedTuple; "
         "solveMatrixPDE with an external solver; three term kinds with structural zeros (axis-only velocity / diffusivity); programs with one and the same term "
@@ -143,7 +143,7 @@ ADDED = {
         "on a periodic domain (dtype is part of the state key); every value edit has a postcondition (the interior values read back are the ones assigned); complete "
         "tables 'initial-value form x BC style x value edit' and 'boundary-face form x coefficient edit' on all nine classes.",
  "C10": " Also: nearly equispaced template, every grid in length units 2^-30 / 2^-60 / 2^40, integer-typed face arrays and numpy-integer cell counts, (N,L) lengths 2^-30 and 3e9, "
-        "grids with up to 133 cells per axis; geometry re-read after in-place edits of location variables; every grid with grids of each other class built before and after it.",
+        "grids with up to 133 cells per axis; the (N, L) form for every N from 1 to 300 along each axis x 8 lengths; geometry re-read after in-place edits of location variables; every grid with grids of each other class built before and after it.",
  "C12": " Also: all three-step time loops on one solution variable in which the coefficient object alpha (scalar / ndarray / CellVariable) is kept, edited in place by 50% or "
         "by ppm, refreshed with apply_BCs, assigned, advanced by its own solvePDE or replaced between the steps (7x7 histories) x 4 dt patterns x {term list rebuilt, one list "
         "reused, reused source vectors first}; old fields given with NaN / inf ghost cells; default alpha; alpha fields varying along one axis only; dt and alpha given as int / numpy integer / float32 / bool; "
